@@ -470,4 +470,38 @@ example : hasAf (byteD (exPkt 0x30 7) 3) = true ∧ hasPayload (byteD (exPkt 0x3
 example : pid (exPkt 0x30 7) = .ok 0x0100 ∧ pusi (exPkt 0x30 7) = .ok true ∧ tei (exPkt 0x30 7) = .ok false
     ∧ cc (exPkt 0x3A 7) = .ok 10 := ⟨ok_of_okVal (by decide +kernel), ok_of_okVal (by decide +kernel), ok_of_okVal (by decide +kernel), ok_of_okVal (by decide +kernel)⟩
 
+/-! ### the VALUES returned for `adaptation_field_control` and `transport_scrambling_control`
+
+`Packet::adaptation_control()` / `transport_scrambling_control()` return small wrapper values that
+derive `PartialEq` (and, for the former, `Debug`).  On the pinned tree they stored the WHOLE header
+byte 3, so two packets with the same field bits but a different continuity counter (or the other
+field) returned values that compared unequal and printed differently: the returned value did not
+carry "exactly the bits assigned to that field".  Found by the second adversarial review, repaired
+in `/repo` (`fix:` commit, finding F11); the harness compares `==` and `Debug` across packets that
+differ in the other bits of byte 3 (`pkt` op: `aceq`, `tsceq`, `acdbg`). -/
+
+/-- the stored byte depends on the two field bits only, and determines them -/
+theorem control_values_carry_only_field_bits : ∀ b : Fin 256,
+    adaptationControlRepr b.val = 16 * readBits [UInt8.ofNat b.val] 2 2 ∧
+    scramblingControlRepr b.val = 64 * readBits [UInt8.ofNat b.val] 0 2 ∧
+    (hasAf b.val = hasAf (adaptationControlRepr b.val)) ∧
+    (hasPayload b.val = hasPayload (adaptationControlRepr b.val)) ∧
+    (isScrambled b.val = isScrambled (scramblingControlRepr b.val)) ∧
+    (scheme b.val = scheme (scramblingControlRepr b.val)) := by decide +kernel
+
+/-- bytes that agree on the field agree on the value (what `==` compares), whatever the
+continuity counter and the other field are -/
+theorem control_values_equal_iff (a b : Fin 256) :
+    (adaptationControlRepr a.val = adaptationControlRepr b.val ↔
+      readBits [UInt8.ofNat a.val] 2 2 = readBits [UInt8.ofNat b.val] 2 2) ∧
+    (scramblingControlRepr a.val = scramblingControlRepr b.val ↔
+      readBits [UInt8.ofNat a.val] 0 2 = readBits [UInt8.ofNat b.val] 0 2) := by
+  have ha := control_values_carry_only_field_bits a
+  have hb := control_values_carry_only_field_bits b
+  rw [ha.1, hb.1, ha.2.1, hb.2.1]
+  constructor <;> constructor <;> intro h <;> omega
+
+example : adaptationControlRepr 0x32 = 0x30 ∧ adaptationControlRepr 0xFD = 0x30
+    ∧ scramblingControlRepr 0x9A = 0x80 := by decide
+
 end Ts.Props.C12
